@@ -253,6 +253,18 @@ func genRefGrant() {
 		return true
 	})
 
+	// --- backend reference resolution (Model/PipelineRefs.lean): createBackendRef, the Service / port lookup, the rule loop,
+	// ReferencedServices, newBackendGroup
+	m.strs("createBackendRefBody", br.stmts(br.fn("", "createBackendRef").Body), "statements of createBackendRef")
+	m.strs("getIPFamilyAndPortFromRefBody", br.stmts(br.fn("", "getIPFamilyAndPortFromRef").Body), "statements of getIPFamilyAndPortFromRef")
+	m.strs("getServicePortBody", br.stmts(br.fn("", "getServicePort").Body), "statements of getServicePort")
+	m.strs("validateWeightBody", br.stmts(br.fn("", "validateWeight").Body), "statements of validateWeight")
+	m.strs("addBackendRefsToRulesBody", br.stmts(br.fn("", "addBackendRefsToRules").Body), "statements of addBackendRefsToRules")
+	svcFile := src(refGrantGraphDir + "/service.go")
+	m.strs("buildReferencedServicesBody", svcFile.stmts(svcFile.fn("", "buildReferencedServices").Body), "statements of buildReferencedServices")
+	dpc := src("internal/mode/static/state/dataplane/configuration.go")
+	m.strs("newBackendGroupBody", dpc.stmts(dpc.fn("", "newBackendGroup").Body), "statements of newBackendGroup")
+
 	// --- the listener's certificate reference
 	gl := src(refGrantGraphDir + "/gateway_listener.go")
 	ext := gl.fn("", "createExternalReferencesForTLSSecretsResolver")
